@@ -6,7 +6,7 @@ import corr_units as U
 PID = "C06"
 PROPS_MODULE = "Props.C06"
 THEOREMS = ["time_table_spec", "seconds_of", "synonyms_interchangeable", "unknown_time_unit_refused", "halving"]
-REQUIRED = ["Props/C06.v", "Model/UnitsCheck.v"]
+REQUIRED = ["Props/C06.v", "Model/UnitsCheck.v", "Proofs/CertDefault/Struct.v", "Proofs/CertDefault/FloatDataCert.v"]
 TRANSLATORS = ["tr_pure", "tr_tables", "tr_data"]
 SHAPE_KEYS = ["load_dataset", "DecayData::half_life", "Inventory::decay", "Inventory::cumulative_decays",
               "InventoryHP::decay", "InventoryHP::cumulative_decays", "decay_time_series"]
@@ -30,7 +30,10 @@ def correspondence(ctx):
 
 
 def search_broken(ctx):
-    return []
+    # "the half-life a nuclide reports is the one the calculation uses" rests on the data certificate (mu * T = 1 exactly, float
+    # decay constants within 1e-15): turn its witnesses into halving requests in both classes
+    import corr_decay as D
+    return D.data_witness_probe(PID, ("Inventory", "InventoryHP"))
 
 
 def replay(payload):
